@@ -101,7 +101,7 @@ I64_FIXED = [([[0, 0, 0], [1, 2200000, 2200000]], [[0, 0, 0], [1, 0, 0]]),
 
 I64_SCOPE = ("numpy.int64 coordinates at the int64 bounds of B**p: 5 fixed pairs of whole-number tracks (point distances 2097151, 2097152, 2097157, 2200000, 3037000499, 3037000500) "
              "x p in {2, 3} x dim in {1, Manhattan, Chebyshev callable} x {DTW, FDTW} x {match, compare}; the calls above the bound (FDTW) only while the finding "
-             "fdtw-numpy-int-coordinates-power-overflow is listed, match() then compared with the int64 model")
+             "fdtw-numpy-int-coordinates-power-overflow is listed, match() then compared with the int64 model (as are 200 / 800 random pairs of such tracks, sizes 1..5, straddling the bounds)")
 
 
 # ---------------------------------------------------------------------------------- tracks
@@ -564,6 +564,20 @@ class P(Prop):
                                     "steps": [self.step(f, "t0", "t1", mode, p, "int", dim, df=df)]}
                             if CLS_NPCOORD in self.listed or not self.npoverflow(case, case["steps"][0]):
                                 out.append(case)
+        # (S2d) random whole-number tracks handed over as numpy.int64 whose point distances straddle the int64 bound of B**p, FDTW match():
+        # most of them belong to the listed class and are compared with the int64 model (generated only while the class is listed)
+        if CLS_NPCOORD in self.listed:
+            for k in range(800 if th else 200):
+                p, top = rng.choice([("3", 2097152), ("3", 2097152), ("3", 4000000), ("2", 3037000500), ("2", 6000000000)])
+
+                def height():
+                    r = rng.random()
+                    return rng.randint(0, 3) if r < 0.4 else (top - rng.randint(0, 4) if r < 0.7 else rng.randint(0, top + 5))
+                tr = [[[i, v, v] for i, v in enumerate(height() for _ in range(rng.randint(1, 5)))] for _ in range(2)]
+                dim, df = rng.choice([(1, "int"), (1, "np"), ("fn.manh", "fn"), ("fn.cheb", "fn")])
+                pre = [rng.choice(["none", "none", "none", "lists"]), "none"]
+                out.append({"kind": "seq", "ct": "np.int64", "tracks": tr, "pre": pre,
+                            "steps": [self.step("m", "t0", "t1", "fdtw", p, rng.choice(["int", "int", "np.int64", "np.int32", "fn"]), dim, df=df)]})
         # (S3) random sessions
         for k in range(30000 if th else 4000):
             out.append(self.rand_session(rng))
